@@ -347,7 +347,7 @@ def eval_values(obs, rep, tier, prop):
                     distinct.add((lc, fl, cin, len(tags), req["plan"][0].split(":")[0] if req["plan"] else "none"))
                     for consumer, tag in tags:
                         if tag["by"] != op["c"]:
-                            problems.append(("C04", "provenance:wrong-constructor",
+                            problems.append(("C04", f"provenance:wrong-constructor:designated-is-{lc}",
                                              f"{consumer} received a {ty} built by {tag['by']}, the blueprint designates {op['c']}"))
                         if tag["cloned"] and not (fl == "K" and cin):
                             problems.append(("C04", f"provenance:clone-of-never-clone:{lc}",
@@ -436,7 +436,7 @@ def oracle_c09(obs, rep, tier):
             if len(samples) < 3 and gen["exit"] == 1:
                 samples.append({"spec": sample_spec(spec), "exit": 1, "diagnostic": first_error_title(gen["stderr"])})
             if gen["timed_out"]:
-                rep.violation(f"{fam}:hang", f"pavexc did not terminate within {L.PAVEXC_TIMEOUT_S}s on {spec['id']}", case)
+                rep.violation(f"{fam}:hang", f"pavexc did not terminate within {L.PAVEXC_TIMEOUT_S}s (nor within {3 * L.PAVEXC_TIMEOUT_S}s when re-run alone) on {spec['id']}", case)
                 continue
             if gen["panic"]:
                 m = re.search(r"in (compiler/[^\s,]+), line (\d+)", gen["stderr"])
@@ -483,7 +483,7 @@ FAMILIES_OF = {
     "C04": lambda tier: ["di", "dimw", "mw", "err"],
     "C05": lambda tier: ["mw"],
     "C06": lambda tier: ["err"],
-    "C09": lambda tier: ["di", "dimw", "mw", "err"],
+    "C09": lambda tier: ["di", "dimw", "mw", "err", "route"],
 }
 
 ORACLES = {"C01": oracle_c01, "C02": oracle_c02, "C03": oracle_c03, "C04": oracle_c04, "C05": oracle_c05,
@@ -514,7 +514,11 @@ def _load_plugins():
                     cov["samples"] = cov.get("samples", []) + cov2.get("samples", [])[:2]
                     cov["rule"] = cov["rule"] + " || PLUS: " + cov2.get("rule", "")
                     cov["exhaustive"] = bool(cov.get("exhaustive")) and bool(cov2.get("exhaustive"))
-                    cov["plugin_coverage"] = {k: v for k, v in cov2.items() if k not in ("samples", "rule")}
+                    pc = dict(cov.get("plugin_coverage", {}))
+                    pc["+".join(fams_fn(tier))] = {k: v for k, v in cov2.items() if k not in ("samples", "rule", "plugin_coverage")}
+                    if isinstance(cov2.get("plugin_coverage"), dict):
+                        pc.update(cov2["plugin_coverage"])
+                    cov["plugin_coverage"] = pc
                     return lvl, cov, list(dict.fromkeys(asm + asm2))
 
                 FAMILIES_OF[prop], ORACLES[prop] = fams, oracle
